@@ -605,6 +605,15 @@ func (g *gen) binary(x *ast.BinaryExpr, pre *[]string) string {
 func (g *gen) call(x *ast.CallExpr, pre *[]string) string {
 	// conversion?
 	if tv, ok := info.Types[x.Fun]; ok && tv.IsType() {
+		// string(b), []byte(s), []byte(nil): byte strings are lists of bytes either way
+		if isBytes(tv.Type) {
+			if id, ok := x.Args[0].(*ast.Ident); ok && id.Name == "nil" {
+				return "[]"
+			}
+			if isBytes(info.Types[x.Args[0]].Type) {
+				return g.expr(x.Args[0], pre)
+			}
+		}
 		to, ok1 := intKind(tv.Type)
 		from, ok2 := intKind(info.Types[x.Args[0]].Type)
 		if !ok1 || !ok2 {
